@@ -60,7 +60,8 @@ UnbornActor ==
    mq |-> <<>>, parked |-> <<>>, rx |-> "open",
    curp |-> NoPayload, scr |-> <<>>, ip |-> 0, cbk |-> "none", tdl |-> -1, sdl |-> -1,
    inc |-> 0, inst |-> 0, st |-> <<>>, notif |-> "armed", shared |-> FALSE,
-   result |-> "none", jh |-> "none", why |-> "none", svc |-> "none"]
+   result |-> "none", jh |-> "none", why |-> "none", svc |-> "none",
+   kids |-> <<>>, bn |-> 0, uc |-> 0]
 
 IdleClient == [stage |-> "idle", n |-> 0, op |-> "none", h |-> "none", m |-> NoM, ta |-> "none",
                hold |-> NoHold, dl |-> -1, last |-> [res |-> "none", pos |-> 0, inst |-> 0, a |-> "none"]]
@@ -129,7 +130,7 @@ InitHist == [hb |-> [a \in Actor |-> <<>>], he |-> [a \in Actor |-> <<>>], cb |-
              stopAcc |-> [a \in Actor |-> FALSE], late |-> [a \in Actor |-> {}],
              oksend |-> [a \in Actor |-> {}], okcall |-> {}, errcall |-> {},
              ann |-> [a \in Actor |-> <<>>], ab |-> [a \in Actor |-> <<>>],
-             qry |-> {}, ctxr |-> {}, upr |-> {}, abt |-> {}, fires |-> {}, upfail |-> [a \in Actor |-> FALSE], ninst |-> 0]
+             qry |-> {}, ctxr |-> {}, upr |-> {}, abt |-> {}, fires |-> {}, bcast |-> {}, upfail |-> [a \in Actor |-> FALSE], ninst |-> 0]
 
 InitReg == [ent |-> <<>>, lock |-> "free"]
 
@@ -364,7 +365,7 @@ DropH(c, o) ==
 
 Give(c, o) ==
   LET x == o.h IN
-  /\ CanIssue(c) /\ Owns(c, x) /\ o.op = "give" /\ o.to \in Client
+  /\ CanIssue(c) /\ Owns(c, x) /\ o.op = "give" /\ o.to \in Client \cup Actor
   /\ hnd' = [hnd EXCEPT ![x].owner = o.to]
   /\ cli' = Instant(c, o, Mid(c), Last("ok", 0, 0, hnd[x].a))
   /\ UNCHANGED <<act, rsp, tmr, reg, now, hst>>
@@ -445,7 +446,7 @@ CurEff(a) == act[a].scr[act[a].ip]
 DropLoop(ar, pc, res, why) ==
   [ar EXCEPT !.pc = pc, !.rx = "closed", !.mq = <<>>, !.parked = <<>>, !.curp = NoPayload, !.scr = <<>>, !.ip = 0,
              !.cbk = "none", !.tdl = -1, !.sdl = -1, !.result = res, !.why = why,
-             !.notif = IF @ = "armed" THEN "dropped" ELSE @]
+             !.notif = IF @ = "armed" THEN "dropped" ELSE @, !.kids = <<>>]
 \* Context::drop aborts the timer tasks (context.rs:71-77); an aborted task still owns what its future
 \* holds (an upgraded Sender during a parked send) until it is polled again and ends
 AbortTimersOf(a) == [i \in DOMAIN tmr |-> IF tmr[i].a = a /\ tmr[i].st \notin {"ended"} THEN [tmr[i] EXCEPT !.st = "aborted"] ELSE tmr[i]]
@@ -453,12 +454,15 @@ AbortTimersOf(a) == [i \in DOMAIN tmr |-> IF tmr[i].a = a /\ tmr[i].st \notin {"
 HAbandon(H, a) == IF act[a].pc = "handling" THEN [H EXCEPT !.ab = [@ EXCEPT ![a] = Append(@, act[a].curp.m)]] ELSE H
 \* <<actor, message, start of the invocation, time of abandonment>>
 HTimedOut(H, a) == [H EXCEPT !.abt = @ \cup {<<a, act[a].curp.m, act[a].tdl - act[a].tmo, now>>}]
+\* the children held by the Context are released with it (context.rs:66)
+ReleaseKids(a) == [y \in DOMAIN hnd \ {act[a].kids[i].h : i \in 1..Len(act[a].kids)} |-> hnd[y]]
 FailH(a, why, H) ==
   /\ act' = [act EXCEPT ![a] = DropLoop(@, "failed", "err", why)]
   /\ rsp' = DropResp(rsp, QueuedResp(act[a]) \cup CurResp(act[a]))
   /\ tmr' = AbortTimersOf(a)
   /\ hst' = H
-  /\ UNCHANGED <<hnd, cli, reg, now>>
+  /\ hnd' = ReleaseKids(a)
+  /\ UNCHANGED <<cli, reg, now>>
 Fail(a, why) == FailH(a, why, HAbandon(hst, a))
 
 StartedBegin(a) ==
@@ -482,6 +486,8 @@ CtxSubmit(a, k) ==    \* Context::stop / restart (context.rs:82-88, 299-305): up
 CtxSubmitOk(a) == FoHeld(a) /\ act[a].rx = "open"
 
 TimerKinds == {"interval", "interval_with", "delayed_send", "delayed_exec"}
+ChildBucket == [add_child |-> "unit", register_bc |-> "bc", register_bc2 |-> "bc2"]
+BroadcastBucket == [broadcast_unit |-> "unit", broadcast_bc |-> "bc", broadcast_bc2 |-> "bc2"]
 TimerName(a, e) == e.s \o "." \o ToString(act[a].inc)    \* a restarted `started` registers afresh
 ScriptStep(a) ==
   LET e == CurEff(a) IN
@@ -504,6 +510,28 @@ ScriptStep(a) ==
                                 k |-> 0, t0 |-> -1, hold |-> NoHold]) @@ tmr
             /\ act' = [act EXCEPT ![a].ip = @ + 1]
             /\ UNCHANGED <<hnd, cli, rsp, reg, now, hst>>
+       [] e.e \in DOMAIN ChildBucket ->     \* Context::add_child / register_child (context.rs:96-111): the handle moves into the context
+            LET x == e.s  ok == x \in DOMAIN hnd /\ hnd[x].owner = a /\ hnd[x].kind = "addr" IN
+            /\ act' = [act EXCEPT ![a] = [@ EXCEPT !.ip = @ + 1,
+                                                   !.kids = IF ok THEN Append(@, [h |-> x, typ |-> ChildBucket[e.e], a |-> hnd[x].a]) ELSE @]]
+            /\ hnd' = IF ok THEN [hnd EXCEPT ![x].kind = "sender"] ELSE hnd
+            /\ UNCHANGED <<cli, rsp, tmr, reg, now, hst>>
+       [] e.e \in DOMAIN BroadcastBucket ->  \* Context::send_to_children (context.rs:113-131): one forced copy per child of that bucket
+            LET typ == BroadcastBucket[e.e]
+                targets == {i \in 1..Len(act[a].kids) : act[a].kids[i].typ = typ}
+                \* children of the bucket in registration order; a child registered twice gets two copies
+                Copies(b) == Cardinality({i \in targets : act[a].kids[i].a = b /\ act[b].rx = "open"})
+                mid(b, j) == IF typ = "unit" THEN <<"unit", act[b].uc + j>> ELSE <<a, 1000 + act[a].bn + 1>>
+                AddCopies(ar, b) == LET n == Copies(b)
+                                        RECURSIVE Add(_, _)
+                                        Add(r, j) == IF j > n THEN r
+                                                     ELSE Add(Enq(r, [k |-> "task", m |-> mid(b, j), rs |-> "none", scr |-> <<>>, src |-> "parent"], DEAD), j + 1)
+                                    IN [Add(ar, 1) EXCEPT !.uc = IF typ = "unit" THEN @ + n ELSE @]
+            IN
+            /\ act' = [b \in Actor |-> IF b = a THEN [act[a] EXCEPT !.ip = @ + 1, !.bn = @ + 1]
+                                       ELSE IF Copies(b) > 0 THEN AddCopies(act[b], b) ELSE act[b]]
+            /\ hst' = [hst EXCEPT !.bcast = @ \cup {<<a, act[a].bn + 1, typ, {act[a].kids[i].a : i \in targets}>>}]
+            /\ UNCHANGED <<hnd, cli, rsp, tmr, reg, now>>
        [] e.e = "panic" -> Fail(a, "panic")
        [] e.e = "err" -> act[a].pc \in {"started", "rs_started"} /\ Fail(a, "startErr")
        [] OTHER -> FALSE
@@ -619,7 +647,8 @@ Exit(a) ==                                 \* end of the async block: Ok(actor),
   /\ act' = [act EXCEPT ![a] = DropLoop(@, "done", "ok", "graceful")]
   /\ rsp' = DropResp(rsp, QueuedResp(act[a]))
   /\ tmr' = AbortTimersOf(a)
-  /\ UNCHANGED <<hnd, cli, reg, now, hst>>
+  /\ hnd' = ReleaseKids(a)
+  /\ UNCHANGED <<cli, reg, now, hst>>
 
 \* fault: the runtime drops the task while it is suspended (runtime shutdown, smol handle drop)
 Cancel(a) ==
